@@ -98,6 +98,8 @@ ReqVerdict1(p, got, ql) ==
 ReqVerdict(c) ==
   IF c.err # "" THEN "sdk-raises"
   ELSE IF c.nreq # Len(c.ps) THEN "stack-did-not-receive-one-request-per-call"
+  \* every (socket id, remote node) the application uses was opened at the stack when the connection was set up
+  ELSE IF \E i \in DOMAIN c.ps : ~\E j \in DOMAIN c.opened : c.opened[j] = <<c.ps[i].socket, c.ps[i].remote_node>> THEN "socket-not-opened-at-the-stack"
   ELSE IF \E i \in DOMAIN c.ps : ReqVerdict1(c.ps[i], c.gots[i], c.qlinks[i]) # "ok"
        THEN LET i == CHOOSE i \in DOMAIN c.ps : ReqVerdict1(c.ps[i], c.gots[i], c.qlinks[i]) # "ok" /\ \A j \in 1..(i - 1) : ReqVerdict1(c.ps[j], c.gots[j], c.qlinks[j]) = "ok"
             IN ReqVerdict1(c.ps[i], c.gots[i], c.qlinks[i])
